@@ -284,6 +284,8 @@ class GarbageCollector:
 
     def _normalize_path(self, path: str) -> str:
         """Normalize path to be relative to table root and strip leading slashes."""
-        if path.startswith(self.table_path):
-            path = path[len(self.table_path):]
+        # Manifest / marker / listing paths are table-relative everywhere (#47);
+        # stripping the table LOCATION as a string prefix cannot tell the location
+        # '/data' from the entry '/data/x.parquet' and made the two spellings of
+        # one file normalise differently.
         return path.lstrip("/")
